@@ -1,0 +1,47 @@
+// SPDX-License-Identifier: GPL-3.0-or-later
+
+//go:build verif
+// +build verif
+
+package cla
+
+import (
+	"sync"
+	"time"
+
+	"github.com/dtn7/dtn7-go/pkg/bpv7"
+)
+
+// NewManagerVerif creates a Manager like NewManager does, but with a configurable retry budget and retry interval.
+// It only exists for external runtime verification (build tag verif).
+func NewManagerVerif(queueTtl int32, retryTime time.Duration) *Manager {
+	manager := &Manager{
+		queueTtl:  queueTtl,
+		retryTime: retryTime,
+
+		convs: new(sync.Map),
+
+		listenerIDs: make(map[CLAType][]bpv7.EndpointID),
+
+		inChnl:  make(chan ConvergenceStatus, 100),
+		outChnl: make(chan ConvergenceStatus),
+
+		stopSyn: make(chan struct{}),
+		stopAck: make(chan struct{}),
+
+		stopFlag: false,
+	}
+
+	go manager.handler()
+
+	return manager
+}
+
+// VerifKnownAddresses returns the addresses of all Convergences known to the Manager, active or not.
+func (manager *Manager) VerifKnownAddresses() (addrs []string) {
+	manager.convs.Range(func(key, _ interface{}) bool {
+		addrs = append(addrs, key.(string))
+		return true
+	})
+	return
+}
